@@ -12,7 +12,7 @@
 
 use palette::convert::{FromColorMut, FromColorUnclamped, FromColorUnclampedMut, IntoColor, IntoColorMut, IntoColorUnclamped, IntoColorUnclampedMut, TryFromColor, TryIntoColor};
 use palette::white_point::D65;
-use palette::{Alpha, Clamp, ClampAssign, FromColor, IsWithinBounds};
+use palette::{Alpha, Clamp, ClampAssign, FromColor, IsWithinBounds, WithAlpha};
 use palette::{Hsl, Hsluv, Hsv, Hwb, Lab, Lch, Lchuv, LinSrgb, Luv, Okhsl, Okhsv, Okhwb, Oklab, Oklch, Srgb, Xyz, Yxy};
 use palette::luma::{LinLuma, SrgbLuma};
 use palette::lms::{BradfordLms, VonKriesLms};
@@ -162,8 +162,23 @@ where
     A: FromColorUnclamped<UserRgb>,
     NSrgb: FromColorUnclamped<A>,
     A: FromColorUnclamped<NSrgb>,
+    A: WithAlpha<T, Color = A, WithAlpha = Alpha<A, T>>,
+    Alpha<A, T>: WithAlpha<T, Color = A, WithAlpha = Alpha<A, T>>,
 {
     let a = A::of(v);
+    // the WithAlpha helpers on the bare and on the wrapped colour: attach, replace, split, remove, opaque, transparent
+    let wa = {
+        let n = A::N;
+        let w = a.with_alpha(v[3]);
+        let w2 = w.with_alpha(0.125 as T);
+        let (sc, sa) = w.split();
+        let wo = w.without_alpha();
+        let op = a.opaque();
+        let tr = w.transparent();
+        let ea = |c: &A, al: T| -> Value { let mut o: Vec<Value> = c.arr()[..n].iter().map(|x| x.ex()).collect(); o.push(al.ex()); Value::Array(o) };
+        json!({"with": ea(&w.color, w.alpha), "replaced": ea(&w2.color, w2.alpha), "split": ea(&sc, sa), "without": ea(&wo, v[3]),
+               "opaque": ea(&op.color, op.alpha), "transparent": ea(&tr.color, tr.alpha)})
+    };
     let aa: Alpha<A, T> = Alpha { color: a, alpha: v[3] };
     let u = UserRgb::from_color_unclamped(aa);
     let uo = UserRgb::from_color_unclamped(a);
@@ -174,7 +189,7 @@ where
     let n = A::N;
     let e3 = |x: [T; 3]| -> Value { Value::Array(x.iter().map(|c| c.ex()).collect()) };
     let en = |x: &V| -> Value { Value::Array(x[..n].iter().map(|c| c.ex()).collect()) };
-    json!({"alpha_in": v[3].ex(), "u": e3([u.red, u.green, u.blue]), "u_alpha": u.alpha.ex(),
+    json!({"wa": wa, "alpha_in": v[3].ex(), "u": e3([u.red, u.green, u.blue]), "u_alpha": u.alpha.ex(),
            "uo": e3([uo.red, uo.green, uo.blue]), "uo_alpha": uo.alpha.ex(),
            "srgb": e3([srgb.red, srgb.green, srgb.blue]),
            "back": en(&back.color.arr()), "back_alpha": back.alpha.ex(), "back_plain": en(&back_plain.arr()), "back_opaque": en(&back_opaque.arr())})
